@@ -84,6 +84,15 @@ type CaseFold struct {
 	Nam   *int   `json:"name"`
 }
 
+// CaseFlat: the same, flat.
+type CaseFlat struct {
+	Name  string
+	NAME  string
+	NaMe  int
+	Other string `json:"Name"`
+	Nam   bool   `json:"name"`
+}
+
 // TagKey: a comparable struct with tags, used as a map key type.
 type TagKey struct {
 	User  string `json:"user"`
@@ -242,6 +251,7 @@ func registerMore() {
 	reg[TagFlat]("c12_tagflat")
 	reg[TagMixed]("c12_tagmixed")
 	reg[CaseFold]("c12_casefold")
+	reg[CaseFlat]("c12_caseflat")
 	reg[TagKey]("c12_tagkey")
 	reg[TagEmbed]("c12_tagembed")
 	reg[Names]("c12_names")
@@ -266,6 +276,7 @@ func registerMore() {
 		typeInfo{t: rt[TagFlat](), w: 5},
 		typeInfo{t: rt[TagMixed](), w: 4},
 		typeInfo{t: rt[CaseFold](), w: 3},
+		typeInfo{t: rt[CaseFlat](), w: 3},
 		typeInfo{t: rt[TagKey](), w: 2},
 		typeInfo{t: rt[TagEmbed](), w: 2},
 		typeInfo{t: rt[NamedCont](), w: 10, gate: gNamed},
